@@ -838,7 +838,12 @@ func (n *getTagEval) Eval(env Env) (types.Value, error) {
 
 	var zero types.EntityUID
 	if eid == zero {
-		return zeroValue(), fmt.Errorf("cannot access tag `%s` of %w", n.rhs, errUnspecifiedEntity)
+		// name the tag, not the compiled operand (whose formatting embeds addresses)
+		t, err := evalString(n.rhs, env)
+		if err != nil {
+			return zeroValue(), err
+		}
+		return zeroValue(), fmt.Errorf("cannot access tag `%s` of %w", t, errUnspecifiedEntity)
 	}
 
 	t, err := evalString(n.rhs, env)
